@@ -1,4 +1,6 @@
 import VelaVerif.Lemmas.Sem
+import VelaVerif.Lemmas.Pool
+import VelaVerif.Lemmas.Exec
 /-!
 # C01 — the compiled model computes the same function as the source model
 
@@ -15,11 +17,16 @@ Theorems here are about the machinery that executes:
 * `srdhm_eq_floor`, `rdivpot_eq_cases`, `npuScaleTfl_eq_mbqm`, `npuScaleNatural_eq_mbqm64` — the "TFL" and
   "NATURAL" OFM rounding modes of the executor are the requantisation functions of the reference kernels,
   for every accumulator, multiplier and shift;
-* `conv_stripe_eq` — the executor's convolution accumulator on a stripe with stripe-local padding equals the
-  reference accumulator on the whole tensor when the receptive-field equations of C10 hold.
+* `conv_stripe_eq`, `dw_stripe_eq`, `pool_stripe_max_eq`, `pool_stripe_avg_eq` — the executor's convolution / depthwise /
+  pooling accumulators on a stripe with stripe-local padding equal the reference accumulators on the whole tensor when the
+  receptive-field equations of C10 hold;
+* `convValues_get`, `gatherList_get`, `conv_block_values`, `scatter_readback`, `convBranch_conv_ok`, `exec_conv_block`,
+  `exec_conv_block_correct` — `execBlock` on a convolution block: reads at `fmAddr`, per-element accumulators at the NHWC
+  index, what is scattered reads back; composed: after a successful `execBlock` every OFM element (not sharing bytes with
+  another) holds the activation of the clamped scaled `convAcc` over the memory contents.
 -/
 namespace VelaVerif.Props.C01
-open VelaVerif.Requant VelaVerif.TfliteRef VelaVerif.Lemmas.Sem VelaVerif.Tiling
+open VelaVerif.Requant VelaVerif.TfliteRef VelaVerif.Lemmas.Sem VelaVerif.Lemmas.Pool VelaVerif.Lemmas.Exec VelaVerif.Tiling VelaVerif.NpuSem VelaVerif.Footprint VelaVerif.Decode VelaVerif.Isa
 
 /-! ## Tiling -/
 
@@ -267,6 +274,751 @@ example :
     let wgt : Nat → Nat → Nat → Int := fun ky kx c => (ky : Int) - kx + c
     (List.range 3).map (fun oy => NpuSem.convAcc 4 4 2 (fun y x c => ifm (2 + y) x c) 3 3 wgt 1 1 1 1 0 1 5 oy 2) =
     (List.range 3).map (fun oy => TfliteRef.convAcc 6 4 2 ifm 3 3 wgt 1 1 1 1 1 1 (-5) (3 + oy) 2) := by
+  decide
+
+/-! ## Pooling on a stripe -/
+
+/-- **MAX pooling on a stripe = reference MAX_POOL on the whole tensor.** The executor takes the maximum over the valid
+    positions of the window on the stripe (rows `[a, a + h)`, stripe-local top padding `pt'`); under the hypotheses of
+    `conv_stripe_eq` (receptive-field equation and row validity of C10) this is the reference's `poolMax` at output row
+    `oy0 + oy` of the whole tensor, started from any `lowest` not above the first window value (the type minimum). -/
+theorem pool_stripe_max_eq (H W h a oy0 pt pt' pl kh kw sy sx : Nat) (ifm : Nat → Nat → Int) (oy ox : Nat) (lowest v0 : Int) (rest : List Int)
+    (hfield : (a : Int) - pt' = (oy0 : Int) * sy - pt)
+    (hrow : ∀ ky, ky < kh →
+      ((pt' ≤ oy * sy + ky ∧ oy * sy + ky - pt' < h) ↔
+       (0 ≤ (((oy0 + oy) * sy + ky : Nat) : Int) - pt ∧ (((oy0 + oy) * sy + ky : Nat) : Int) - pt < H)))
+    (hvals : NpuSem.windowVals h W (fun y x => ifm (a + y) x) kh kw sy sx pt' pl oy ox = v0 :: rest)
+    (hlow : lowest ≤ v0) :
+    rest.foldl max v0 = TfliteRef.poolMax H W ifm kh kw sy sx pt pl (oy0 + oy) ox lowest := by
+  rw [poolMax_eq_foldl, ← windowVals_eq_refWindow, ← windowVals_stripe H W h a oy0 pt pt' pl kh kw sy sx ifm oy ox hfield hrow, hvals]
+  simp only [List.foldl]
+  rw [Int.max_eq_right hlow]
+
+/-- **AVERAGE pooling on a stripe**: sum of the zero-point-corrected window values and their number are the reference's
+    `poolSumCount` on the whole tensor -/
+theorem pool_stripe_avg_eq (H W h a oy0 pt pt' pl kh kw sy sx : Nat) (ifm : Nat → Nat → Int) (oy ox : Nat) (zp : Int)
+    (hfield : (a : Int) - pt' = (oy0 : Int) * sy - pt)
+    (hrow : ∀ ky, ky < kh →
+      ((pt' ≤ oy * sy + ky ∧ oy * sy + ky - pt' < h) ↔
+       (0 ≤ (((oy0 + oy) * sy + ky : Nat) : Int) - pt ∧ (((oy0 + oy) * sy + ky : Nat) : Int) - pt < H))) :
+    let vals := NpuSem.windowVals h W (fun y x => ifm (a + y) x) kh kw sy sx pt' pl oy ox
+    let sc := TfliteRef.poolSumCount H W ifm kh kw sy sx pt pl (oy0 + oy) ox
+    vals.foldl (fun acc x => acc + (x - zp)) 0 = sc.1 - zp * sc.2 ∧ vals.length = sc.2 := by
+  intro vals sc
+  have e : vals = refWindow H W ifm kh kw sy sx pt pl (oy0 + oy) ox := by
+    simp only [vals]
+    rw [windowVals_stripe H W h a oy0 pt pt' pl kh kw sy sx ifm oy ox hfield hrow, windowVals_eq_refWindow]
+  have e2 : sc = (0 + vals.foldl (· + ·) 0, 0 + vals.length) := by
+    simp only [sc]
+    rw [poolSumCount_eq_foldl, ← e, foldl_pair_list]
+  rw [e2, foldl_sub_zp]
+  simp
+
+/-- non-vacuity: 3x3 stride-1 SAME pooling of 6 rows, second stripe (output rows 3..5 from IFM rows 2..5, no top padding) -/
+example :
+    let ifm : Nat → Nat → Int := fun y x => ((y * 7 + x * 3) % 11 : Nat)
+    (List.range 3).map (fun oy => NpuSem.windowVals 4 4 (fun y x => ifm (2 + y) x) 3 3 1 1 0 1 oy 2) =
+    (List.range 3).map (fun oy => NpuSem.windowVals 6 4 ifm 3 3 1 1 1 1 (3 + oy) 2) ∧
+    (List.range 3).map (fun oy => ((NpuSem.windowVals 4 4 (fun y x => ifm (2 + y) x) 3 3 1 1 0 1 oy 2).foldl max (-128))) =
+    (List.range 3).map (fun oy => TfliteRef.poolMax 6 4 ifm 3 3 1 1 1 1 (3 + oy) 2 (-128)) := by
+  decide
+
+/-! ## The executor's loops and the accumulators
+
+`NpuSem.execBlock` gathers the IFM box (`gatherList`: element `(y, x, c)` read at `Footprint.fmAddr`), computes the OFM
+values of a convolution block with `NpuSem.convValues`, applies the activation to each and scatters them. The theorems
+below tie the list/array formulation to the per-element accumulators `NpuSem.convAcc` / `NpuSem.dwAcc` that
+`conv_stripe_eq` / `dw_stripe_eq` relate to the reference. -/
+
+/-- **The executor's convolution loop computes, at NHWC index `(oy * ow + ox) * od + oc`, the scaled accumulator of
+    that position and channel.** -/
+theorem convValues_get (H W C : Nat) (ifmAt : Nat → Nat → Nat → Int) (kh kw : Nat) (wAt : Nat → Nat → Nat → Nat → Int)
+    (sy sx dy dx pt pl : Nat) (zp ozp : Int) (rounding : Rounding) (recs : Array ScaleRec) (oh ow od oy ox oc : Nat)
+    (hy : oy < oh) (hx : ox < ow) (hc : oc < od) :
+    (convValues false H W C ifmAt kh kw wAt sy sx dy dx pt pl zp ozp rounding recs oh ow od)[(oy * ow + ox) * od + oc]? =
+      some (npuScale rounding
+        (NpuSem.convAcc H W C ifmAt kh kw (fun ky kx ic => wAt oc ky kx ic) sy sx dy dx pt pl zp oy ox + (recs.getD oc default).bias)
+        (recs.getD oc default).scale (recs.getD oc default).shift + ozp) := by
+  unfold convValues
+  rw [nested_range_get oh ow od _ oy ox oc hy hx hc]
+  simp
+
+theorem dwValues_get (H W C : Nat) (ifmAt : Nat → Nat → Nat → Int) (kh kw : Nat) (wAt : Nat → Nat → Nat → Nat → Int)
+    (sy sx dy dx pt pl : Nat) (zp ozp : Int) (rounding : Rounding) (recs : Array ScaleRec) (oh ow od oy ox oc : Nat)
+    (hy : oy < oh) (hx : ox < ow) (hc : oc < od) :
+    (convValues true H W C ifmAt kh kw wAt sy sx dy dx pt pl zp ozp rounding recs oh ow od)[(oy * ow + ox) * od + oc]? =
+      some (npuScale rounding
+        (NpuSem.dwAcc H W (fun y x => ifmAt y x oc) kh kw (fun ky kx => wAt oc ky kx 0) sy sx dy dx pt pl zp oy ox + (recs.getD oc default).bias)
+        (recs.getD oc default).scale (recs.getD oc default).shift + ozp) := by
+  unfold convValues
+  rw [nested_range_get oh ow od _ oy ox oc hy hx hc]
+  simp
+
+
+/-- **`gather` reads element `(y, x, c)` of the box at `fmAddr fm y x c`**: if the gather succeeds, its NHWC index
+    `(y * W + x) * C + c` holds exactly what `readElem` returns at that address -/
+theorem gatherList_get (m : Mem) (fm : FM) (l : List Int) (h : gatherList m fm = .ok l) (y x c : Nat)
+    (hy : y < fm.height) (hx : x < fm.width) (hc : c < fm.depth) :
+    ∃ v, l[(y * fm.width + x) * fm.depth + c]? = some v ∧
+      m.readElem fm.region (fmAddr fm y x c) fm.elemBytes fm.signed = .ok v := by
+  unfold gatherList at h
+  have ⟨_, hg⟩ := mapM_except_get _ _ l h
+  exact hg _ (y, x, c) (coords3_get fm.height fm.width fm.depth y x c hy hx hc)
+
+
+theorem gather_getD (m : Mem) (fm : FM) (l : List Int) (h : gatherList m fm = .ok l) (y x c : Nat)
+    (hy : y < fm.height) (hx : x < fm.width) (hc : c < fm.depth) :
+    l.toArray.getD ((y * fm.width + x) * fm.depth + c) 0 = memFm m fm y x c := by
+  obtain ⟨v, h1, h2⟩ := gatherList_get m fm l h y x c hy hx hc
+  unfold memFm
+  rw [h2]
+  simp [Array.getD_eq_getD_getElem?, h1]
+
+/-- **decoded block → accumulator**: for a convolution block without IFM upscaling, whose IFM box was gathered
+    successfully, the value the executor computes for OFM element `(oy, ox, oc)` (before the activation clamp) is the scaled
+    `convAcc` over the *memory contents* at the addresses `fmAddr` gives for the IFM registers -/
+theorem conv_block_values (m : Mem) (fm : FM) (l : List Int) (hg : gatherList m fm = .ok l)
+    (kh kw : Nat) (wAt : Nat → Nat → Nat → Nat → Int) (sy sx dy dx pt pl : Nat) (zp ozp : Int) (rounding : Rounding)
+    (recs : Array ScaleRec) (oh ow od oy ox oc : Nat) (hy : oy < oh) (hx : ox < ow) (hc : oc < od) :
+    (convValues false fm.height fm.width fm.depth (fun y x c => l.toArray.getD ((y * fm.width + x) * fm.depth + c) 0)
+        kh kw wAt sy sx dy dx pt pl zp ozp rounding recs oh ow od)[(oy * ow + ox) * od + oc]? =
+      some (npuScale rounding
+        (NpuSem.convAcc fm.height fm.width fm.depth (memFm m fm) kh kw (fun ky kx ic => wAt oc ky kx ic) sy sx dy dx pt pl zp oy ox +
+          (recs.getD oc default).bias)
+        (recs.getD oc default).scale (recs.getD oc default).shift + ozp) := by
+  rw [convValues_get _ _ _ _ _ _ _ _ _ _ _ _ _ _ _ _ _ oh ow od oy ox oc hy hx hc]
+  rw [convAcc_congr_inrange fm.height fm.width fm.depth _ (memFm m fm)
+    (fun y x c h1 h2 h3 => gather_getD m fm l hg y x c h1 h2 h3)]
+
+
+/-- **Write side: what `scatter` stores is what a later read returns.** If the scatter of the OFM values succeeds and the
+    bytes of element `(y, x, c)` are not shared with any other element of the box (`hdisj`: the strides in the registers
+    separate the elements — C02/C12's subject), then reading that element from the resulting memory at
+    `fmAddr fm y x c` gives the stored value (modulo `2^(8·bytes)`, sign-reinterpreted: `wrapElem`), whatever order the
+    other elements were written in. With `wrapElem_id`: the value itself when it is in the range of the OFM type (which the
+    activation clamp guarantees). -/
+theorem scatter_readback (m m' : Mem) (fm : FM) (vals : Array Int) (s : Nat)
+    (hslot : regionSlot fm.region = some s) (hsz : s < m.regions.size)
+    (h : scatter m fm vals = .ok m') (y x c : Nat) (hy : y < fm.height) (hx : x < fm.width) (hc : c < fm.depth)
+    (hdisj : ∀ y' x' c', y' < fm.height → x' < fm.width → c' < fm.depth → (y', x', c') ≠ (y, x, c) →
+      fmAddr fm y x c + fm.elemBytes ≤ fmAddr fm y' x' c' ∨ fmAddr fm y' x' c' + fm.elemBytes ≤ fmAddr fm y x c) :
+    m'.readElem fm.region (fmAddr fm y x c) fm.elemBytes fm.signed =
+      .ok (wrapElem fm.elemBytes fm.signed (vals.getD ((y * fm.width + x) * fm.depth + c) 0)) := by
+  unfold scatter Mem.modifyRegion at h
+  rw [hslot] at h
+  simp only [] at h
+  generalize hB : m.regions.getD s ByteArray.empty = B at h
+  split at h
+  · cases h
+  · rename_i hs0
+    cases hb : scatterBytes fm vals B with
+    | error e => rw [hb] at h; cases h
+    | ok b' =>
+      rw [hb] at h
+      cases h
+      unfold scatterBytes at hb
+      have hrb := writes_readback fm.region fm.elemBytes (fun (e : Nat × Nat × Nat) => fmAddr fm e.1 e.2.1 e.2.2)
+        (fun (e : Nat × Nat × Nat) => vals.getD ((e.1 * fm.width + e.2.1) * fm.depth + e.2.2) 0)
+        (coords3 fm.height fm.width fm.depth) B b' hb ((y * fm.width + x) * fm.depth + c) (y, x, c)
+        (coords3_get _ _ _ y x c hy hx hc)
+        (by
+          intro j e' hj hne
+          have ⟨h1, h2, h3, h4⟩ := coords3_get_inv _ _ _ j e' hj
+          apply hdisj e'.1 e'.2.1 e'.2.2 h1 h2 h3
+          intro heq
+          apply hne
+          rw [h4]
+          have e1 : e'.1 = y := by have := congrArg (·.1) heq; simpa using this
+          have e2 : e'.2.1 = x := by have := congrArg (·.2.1) heq; simpa using this
+          have e3 : e'.2.2 = c := by have := congrArg (·.2.2) heq; simpa using this
+          rw [e1, e2, e3])
+      obtain ⟨hin, hbytes⟩ := hrb
+      have hget : ({ regions := (m.regions.setIfInBounds s ByteArray.empty).setIfInBounds s b' } : Mem).regions.getD s ByteArray.empty = b' := by
+        simp [Array.getD_eq_getD_getElem?, hsz]
+      unfold Mem.readElem
+      rw [readUnsigned_ok _ fm.region s _ _ hslot (by rw [hget]; exact hin), hget]
+      have hu : (vals.getD ((y * fm.width + x) * fm.depth + c) 0 % (2 : Int) ^ (8 * fm.elemBytes)).toNat < 256 ^ fm.elemBytes := by
+        rw [← pow_8n]
+        have hp : (0 : Int) < (2 : Int) ^ (8 * fm.elemBytes) := VelaVerif.Lemmas.Sem.two_pow_pos _
+        have h1 := Int.emod_lt_of_pos (vals.getD ((y * fm.width + x) * fm.depth + c) 0) hp
+        have h0 := Int.emod_nonneg (vals.getD ((y * fm.width + x) * fm.depth + c) 0) (by omega : (2 : Int) ^ (8 * fm.elemBytes) ≠ 0)
+        have hc : ((2 : Nat) ^ (8 * fm.elemBytes) : Nat) = ((2 : Int) ^ (8 * fm.elemBytes)) := by simp
+        omega
+      have e : (List.range fm.elemBytes).foldl (fun v i => v + (b'.get! (fmAddr fm y x c + i)).toNat * 256 ^ i) 0 =
+          (vals.getD ((y * fm.width + x) * fm.depth + c) 0 % (2 : Int) ^ (8 * fm.elemBytes)).toNat := by
+        rw [← read_setBytes b' (fmAddr fm y x c) _ fm.elemBytes hu hin]
+        have gen : ∀ (l : List Nat), (∀ i ∈ l, i < fm.elemBytes) → ∀ init,
+            l.foldl (fun v i => v + (b'.get! (fmAddr fm y x c + i)).toNat * 256 ^ i) init =
+            l.foldl (fun v i => v + ((setBytes b' (fmAddr fm y x c) (vals.getD ((y * fm.width + x) * fm.depth + c) 0 % (2 : Int) ^ (8 * fm.elemBytes)).toNat fm.elemBytes).get! (fmAddr fm y x c + i)).toNat * 256 ^ i) init := by
+          intro l
+          induction l with
+          | nil => intro _ init; rfl
+          | cons a as ih =>
+            intro hl init
+            simp only [List.foldl]
+            rw [hbytes a (hl a List.mem_cons_self), setBytes_get_in _ _ _ _ a (hl a List.mem_cons_self) hin]
+            exact ih (fun i hi => hl i (List.mem_cons_of_mem a hi)) _
+        exact gen _ (fun i hi => List.mem_range.mp hi) 0
+      rw [e]
+      rfl
+
+
+
+/-- a value in the range of the element type is stored faithfully -/
+theorem wrapElem_id (n : Nat) (signed : Bool) (v : Int) (hn : 1 ≤ n)
+    (hr : if signed then -((2 : Int) ^ (8 * n - 1)) ≤ v ∧ v < (2 : Int) ^ (8 * n - 1) else 0 ≤ v ∧ v < (2 : Int) ^ (8 * n)) :
+    wrapElem n signed v = v := by
+  unfold wrapElem toSigned
+  have hp : (2 : Int) ^ (8 * n) = 2 * (2 : Int) ^ (8 * n - 1) := by
+    have : 8 * n = (8 * n - 1) + 1 := by omega
+    rw [this, VelaVerif.Lemmas.Sem.two_pow_succ]; simp
+  have hpn : ((2 : Nat) ^ (8 * n - 1) : Nat) = ((2 : Int) ^ (8 * n - 1)) := by simp
+  have hpos := VelaVerif.Lemmas.Sem.two_pow_pos (8 * n - 1)
+  generalize (2 : Int) ^ (8 * n - 1) = P at *
+  cases signed with
+  | true =>
+    simp only [if_true] at hr ⊢
+    rw [hp]
+    by_cases hv : 0 ≤ v
+    · have e : v % (2 * P) = v := Int.emod_eq_of_lt hv (by omega)
+      rw [e]
+      have : ¬ (v.toNat ≥ 2 ^ (8 * n - 1)) := by omega
+      simp only [this, if_false]
+      omega
+    · have e : v % (2 * P) = v + 2 * P := by
+        have h1 : (v + 2 * P) % (2 * P) = v + 2 * P := Int.emod_eq_of_lt (by omega) (by omega)
+        rw [← h1]
+        exact (Int.add_emod_right v (2 * P)).symm
+      rw [e]
+      have : (v + 2 * P).toNat ≥ 2 ^ (8 * n - 1) := by omega
+      simp only [this, if_true]
+      omega
+  | false =>
+    simp only [Bool.false_eq_true, if_false] at hr ⊢
+    rw [hp] at hr ⊢
+    have e : v % (2 * P) = v := Int.emod_eq_of_lt hr.1 hr.2
+    rw [e]
+    omega
+
+/-- non-vacuity: a 2x2x1 block with a 1x1 kernel of weight 3, scale record (bias 1, scale 2^30, shift 30): index 3 holds
+    `(ifm(1,1,0) - zp) * 3 + 1` -/
+example :
+    (convValues false 2 2 1 (fun y x _ => (y * 2 + x : Nat)) 1 1 (fun _ _ _ _ => 3) 1 1 1 1 0 0 1 0 .tfl
+      #[{ bias := 1, scale := 1073741824, shift := 30 }] 2 2 1)[(1 * 2 + 1) * 1 + 0]? = some ((3 - 1) * 3 + 1) := by decide
+
+/-- non-vacuity of `scatter_readback`: a 2x2x1 int16 OFM at base 2 with row stride 6 in a 16-byte scratch region: the
+    scatter succeeds, the elements are separated, and element (1, 1, 0) reads back as the stored -32768 -/
+example : (match scatter { regions := #[ByteArray.empty, ByteArray.mk (Array.replicate 16 0), ByteArray.empty, ByteArray.empty] }
+      { region := 1, base := [2, 0, 0, 0], height0 := 2, height1 := 2, width0 := 2, strideX := 2, strideY := 6, strideC := 0,
+        height := 2, width := 2, depth := 1, elemBytes := 2, signed := true, nhcwb16 := false, zeroPoint := 0 }
+      #[-3, 300, 7, -32768] with | .ok _ => true | .error _ => false) = true := by decide
+
+example (m' : Mem)
+    (h : scatter { regions := #[ByteArray.empty, ByteArray.mk (Array.replicate 16 0), ByteArray.empty, ByteArray.empty] }
+      { region := 1, base := [2, 0, 0, 0], height0 := 2, height1 := 2, width0 := 2, strideX := 2, strideY := 6, strideC := 0,
+        height := 2, width := 2, depth := 1, elemBytes := 2, signed := true, nhcwb16 := false, zeroPoint := 0 }
+      #[-3, 300, 7, -32768] = .ok m') :
+    m'.readElem 1 10 2 true = .ok (-32768) := by
+  have := scatter_readback _ m' _ #[-3, 300, 7, -32768] 1 (by decide) (by decide) h 1 1 0 (by decide) (by decide) (by decide)
+    (by intro y' x' c' hy hx hc hne
+        have h1 : y' = 0 ∨ y' = 1 := by have : y' < 2 := hy; omega
+        have h2 : x' = 0 ∨ x' = 1 := by have : x' < 2 := hx; omega
+        have h3 : c' = 0 := by have : c' < 1 := hc; omega
+        subst h3
+        rcases h1 with rfl | rfl <;> rcases h2 with rfl | rfl <;> first | (exact absurd rfl hne) | decide)
+  exact this
+
+/-! ## `execBlock` on a convolution block, end to end -/
+
+
+/-- the convolution branch of `execBlock`, inverted: if it succeeds, the scale records were read, the weights fit the IFM
+    depth, and every output value is the activation of the clamped scaled accumulator at its NHWC index -/
+theorem convBranch_conv_ok (m : Mem) (ctx : Ctx) (b : BlockOp) (w : Weights) (rounding : Rounding) (ifm : Array Int) (H W : Nat)
+    (out : List Int) (hk : b.kind = .conv) (h : convBranch m ctx b (some w) rounding ifm H W = .ok out) :
+    ∃ recs : List ScaleRec,
+      (List.range b.ofm.depth).mapM (fun c => readScaleRec m b.scales ctx.ncores c) = .ok recs ∧
+      w.ic = b.ifm.depth ∧
+      ∀ oy ox oc, oy < b.ofm.height → ox < b.ofm.width → oc < b.ofm.depth →
+        ∃ v, out[(oy * b.ofm.width + ox) * b.ofm.depth + oc]? = some v ∧
+          applyActivation m ctx b (clamp (npuScale rounding
+            (NpuSem.convAcc H W b.ifm.depth (fun y x c => ifm.getD ((y * W + x) * b.ifm.depth + c) 0)
+              ((b.kernelH - 1) / b.dilationY + 1) ((b.kernelW - 1) / b.dilationX + 1) (fun ky kx ic => w.at oc ky kx ic)
+              b.strideY b.strideX b.dilationY b.dilationX b.padTop b.padLeft b.ifm.zeroPoint oy ox + (recs.toArray.getD oc default).bias)
+            (recs.toArray.getD oc default).scale (recs.toArray.getD oc default).shift + b.ofm.zeroPoint) b.actMin b.actMax) = .ok v := by
+  unfold convBranch at h
+  simp only [hk] at h
+  split at h
+  · simp [throw, throwThe, MonadExcept.throw, bind, Except.bind] at h
+  · split at h
+    · simp [throw, throwThe, MonadExcept.throw, bind, Except.bind] at h
+    · rename_i hfit hic
+      split at h
+      · simp [throw, throwThe, MonadExcept.throw, bind, Except.bind] at h
+      · cases hr : List.mapM (fun c => readScaleRec m b.scales ctx.ncores c) (List.range b.ofm.depth) with
+        | error e => rw [hr] at h; simp [bind, Except.bind] at h
+        | ok recs =>
+          rw [hr] at h
+          simp only [bind, Except.bind] at h
+          refine ⟨recs, rfl, ?_, ?_⟩
+          · by_cases hc : w.ic = b.ifm.depth
+            · exact hc
+            · exact absurd ⟨by decide, hc⟩ hic
+          · intro oy ox oc hy hx hc
+            have ⟨_, hg⟩ := mapM_except_get _ _ out h
+            have hv := convValues_get H W b.ifm.depth (fun y x c => ifm.getD ((y * W + x) * b.ifm.depth + c) 0)
+              ((b.kernelH - 1) / b.dilationY + 1) ((b.kernelW - 1) / b.dilationX + 1) (fun oc ky kx ic => w.at oc ky kx ic)
+              b.strideY b.strideX b.dilationY b.dilationX b.padTop b.padLeft b.ifm.zeroPoint b.ofm.zeroPoint rounding recs.toArray
+              b.ofm.height b.ofm.width b.ofm.depth oy ox oc hy hx hc
+            have hdw : (OpKind.conv == OpKind.depthwise) = false := by decide
+            rw [hdw] at hg
+            exact hg _ _ hv
+
+
+/-- `execBlock` on a convolution block without upscaling is: decode the rounding mode, gather the IFM box, run the
+    convolution branch, scatter the result (all prefix checks passed) -/
+theorem exec_conv_block (m m' : Mem) (ctx : Ctx) (b : BlockOp) (regs : RegFile) (w : Weights)
+    (hk : b.kind = .conv) (hu : b.upscale = 0) (h : execBlock m ctx b regs (some w) = .ok m') :
+    ∃ rounding l out, Rounding.ofBits (b.ofmPrecision / 16384 % 4) = some rounding ∧ gatherList m b.ifm = .ok l ∧
+      convBranch m ctx b (some w) rounding l.toArray b.ifm.height b.ifm.width = .ok out ∧
+      scatter m b.ofm out.toArray = .ok m' := by
+  unfold execBlock at h
+  simp only [hk, hu, show ¬ ((0 : Nat) > 2) by decide, ne_eq, not_true_eq_false, false_and, if_false, if_true, pure_bind] at h
+  split at h
+  · simp [throw, throwThe, MonadExcept.throw, bind, Except.bind] at h
+  · split at h
+    · simp [throw, throwThe, MonadExcept.throw, bind, Except.bind] at h
+    · split at h
+      · rename_i rounding hro
+        unfold gather at h
+        cases hg : gatherList m b.ifm with
+        | error e => rw [hg] at h; simp [bind, Except.bind] at h
+        | ok l =>
+          rw [hg] at h
+          simp only [bind, Except.bind, pure, Except.pure] at h
+          cases hc : convBranch m ctx b (some w) rounding l.toArray b.ifm.height b.ifm.width with
+          | error e => rw [hc] at h; simp at h
+          | ok out =>
+            rw [hc] at h
+            exact ⟨rounding, l, out, hro, rfl, hc, h⟩
+      · simp [throw, throwThe, MonadExcept.throw] at h
+
+
+/-- **A convolution block of the command stream, end to end.** If `execBlock` succeeds on a convolution block without IFM
+    upscaling, then for every OFM element `(oy, ox, oc)` whose bytes no other element of the OFM box shares, the resulting
+    memory holds at `fmAddr b.ofm oy ox oc` the activation of the clamped, scaled accumulator
+    `convAcc` over the memory contents at the addresses the IFM registers give (`memFm m b.ifm`), with the weights of output
+    channel `oc` and the scale record of that channel read from the region bytes. -/
+theorem exec_conv_block_correct (m m' : Mem) (ctx : Ctx) (b : BlockOp) (regs : RegFile) (w : Weights) (s : Nat)
+    (hk : b.kind = .conv) (hu : b.upscale = 0) (h : execBlock m ctx b regs (some w) = .ok m')
+    (hslot : regionSlot b.ofm.region = some s) (hsz : s < m.regions.size)
+    (oy ox oc : Nat) (hy : oy < b.ofm.height) (hx : ox < b.ofm.width) (hc : oc < b.ofm.depth)
+    (hdisj : ∀ y' x' c', y' < b.ofm.height → x' < b.ofm.width → c' < b.ofm.depth → (y', x', c') ≠ (oy, ox, oc) →
+      fmAddr b.ofm oy ox oc + b.ofm.elemBytes ≤ fmAddr b.ofm y' x' c' ∨ fmAddr b.ofm y' x' c' + b.ofm.elemBytes ≤ fmAddr b.ofm oy ox oc) :
+    ∃ (rounding : Rounding) (recs : List ScaleRec) (v : Int),
+      Rounding.ofBits (b.ofmPrecision / 16384 % 4) = some rounding ∧
+      (List.range b.ofm.depth).mapM (fun c => readScaleRec m b.scales ctx.ncores c) = .ok recs ∧
+      applyActivation m ctx b (clamp (npuScale rounding
+          (NpuSem.convAcc b.ifm.height b.ifm.width b.ifm.depth (memFm m b.ifm)
+            ((b.kernelH - 1) / b.dilationY + 1) ((b.kernelW - 1) / b.dilationX + 1) (fun ky kx ic => w.at oc ky kx ic)
+            b.strideY b.strideX b.dilationY b.dilationX b.padTop b.padLeft b.ifm.zeroPoint oy ox + (recs.toArray.getD oc default).bias)
+          (recs.toArray.getD oc default).scale (recs.toArray.getD oc default).shift + b.ofm.zeroPoint) b.actMin b.actMax) = .ok v ∧
+      m'.readElem b.ofm.region (fmAddr b.ofm oy ox oc) b.ofm.elemBytes b.ofm.signed = .ok (wrapElem b.ofm.elemBytes b.ofm.signed v) := by
+  obtain ⟨rounding, l, out, hro, hg, hcb, hsc⟩ := exec_conv_block m m' ctx b regs w hk hu h
+  obtain ⟨recs, hrecs, _, hvals⟩ := convBranch_conv_ok m ctx b w rounding l.toArray b.ifm.height b.ifm.width out hk hcb
+  obtain ⟨v, hv1, hv2⟩ := hvals oy ox oc hy hx hc
+  refine ⟨rounding, recs, v, hro, hrecs, ?_, ?_⟩
+  · rw [← convAcc_congr_inrange b.ifm.height b.ifm.width b.ifm.depth _ (memFm m b.ifm)
+      (fun y x c h1 h2 h3 => gather_getD m b.ifm l hg y x c h1 h2 h3)]
+    exact hv2
+  · have := scatter_readback m m' b.ofm out.toArray s hslot hsz hsc oy ox oc hy hx hc hdisj
+    rw [this]
+    simp [Array.getD_eq_getD_getElem?, hv1]
+
+
+
+/-! ### the same for depthwise blocks -/
+
+
+theorem dwAcc_congr_inrange (H W : Nat) (f g : Nat → Nat → Int) (hfg : ∀ y x, y < H → x < W → f y x = g y x)
+    (kh kw : Nat) (wgt : Nat → Nat → Int) (sy sx dy dx pt pl : Nat) (zp : Int) (oy ox : Nat) :
+    NpuSem.dwAcc H W f kh kw wgt sy sx dy dx pt pl zp oy ox = NpuSem.dwAcc H W g kh kw wgt sy sx dy dx pt pl zp oy ox := by
+  unfold NpuSem.dwAcc
+  apply sumRange_congr; intro ky _
+  apply sumRange_congr; intro kx _
+  simp only []
+  split
+  · rename_i h
+    rw [hfg _ _ h.2.1 h.2.2.2]
+  · rfl
+
+theorem convBranch_dw_ok (m : Mem) (ctx : Ctx) (b : BlockOp) (w : Weights) (rounding : Rounding) (ifm : Array Int) (H W : Nat)
+    (out : List Int) (hk : b.kind = .depthwise) (h : convBranch m ctx b (some w) rounding ifm H W = .ok out) :
+    ∃ recs : List ScaleRec,
+      (List.range b.ofm.depth).mapM (fun c => readScaleRec m b.scales ctx.ncores c) = .ok recs ∧
+      w.ic = 1 ∧ b.ifm.depth = b.ofm.depth ∧
+      ∀ oy ox oc, oy < b.ofm.height → ox < b.ofm.width → oc < b.ofm.depth →
+        ∃ v, out[(oy * b.ofm.width + ox) * b.ofm.depth + oc]? = some v ∧
+          applyActivation m ctx b (clamp (npuScale rounding
+            (NpuSem.dwAcc H W (fun y x => ifm.getD ((y * W + x) * b.ifm.depth + oc) 0)
+              ((b.kernelH - 1) / b.dilationY + 1) ((b.kernelW - 1) / b.dilationX + 1) (fun ky kx => w.at oc ky kx 0)
+              b.strideY b.strideX b.dilationY b.dilationX b.padTop b.padLeft b.ifm.zeroPoint oy ox + (recs.toArray.getD oc default).bias)
+            (recs.toArray.getD oc default).scale (recs.toArray.getD oc default).shift + b.ofm.zeroPoint) b.actMin b.actMax) = .ok v := by
+  unfold convBranch at h
+  simp only [hk] at h
+  split at h
+  · simp [throw, throwThe, MonadExcept.throw, bind, Except.bind] at h
+  · split at h
+    · simp [throw, throwThe, MonadExcept.throw, bind, Except.bind] at h
+    · split at h
+      · simp [throw, throwThe, MonadExcept.throw, bind, Except.bind] at h
+      · rename_i hdw
+        cases hr : List.mapM (fun c => readScaleRec m b.scales ctx.ncores c) (List.range b.ofm.depth) with
+        | error e => rw [hr] at h; simp [bind, Except.bind] at h
+        | ok recs =>
+          rw [hr] at h
+          simp only [bind, Except.bind] at h
+          have hd : w.ic = 1 ∧ b.ifm.depth = b.ofm.depth := by
+            by_cases h1 : w.ic = 1
+            · by_cases h2 : b.ifm.depth = b.ofm.depth
+              · exact ⟨h1, h2⟩
+              · exact absurd ⟨by decide, Or.inr h2⟩ hdw
+            · exact absurd ⟨by decide, Or.inl h1⟩ hdw
+          refine ⟨recs, rfl, hd.1, hd.2, ?_⟩
+          intro oy ox oc hy hx hc
+          have ⟨_, hg⟩ := mapM_except_get _ _ out h
+          have hv := dwValues_get H W b.ifm.depth (fun y x c => ifm.getD ((y * W + x) * b.ifm.depth + c) 0)
+            ((b.kernelH - 1) / b.dilationY + 1) ((b.kernelW - 1) / b.dilationX + 1) (fun oc ky kx ic => w.at oc ky kx ic)
+            b.strideY b.strideX b.dilationY b.dilationX b.padTop b.padLeft b.ifm.zeroPoint b.ofm.zeroPoint rounding recs.toArray
+            b.ofm.height b.ofm.width b.ofm.depth oy ox oc hy hx hc
+          have hdwk : (OpKind.depthwise == OpKind.depthwise) = true := by decide
+          rw [hdwk] at hg
+          exact hg _ _ hv
+
+theorem exec_dw_block (m m' : Mem) (ctx : Ctx) (b : BlockOp) (regs : RegFile) (w : Weights)
+    (hk : b.kind = .depthwise) (hu : b.upscale = 0) (h : execBlock m ctx b regs (some w) = .ok m') :
+    ∃ rounding l out, Rounding.ofBits (b.ofmPrecision / 16384 % 4) = some rounding ∧ gatherList m b.ifm = .ok l ∧
+      convBranch m ctx b (some w) rounding l.toArray b.ifm.height b.ifm.width = .ok out ∧
+      scatter m b.ofm out.toArray = .ok m' := by
+  unfold execBlock at h
+  simp only [hk, hu, show ¬ ((0 : Nat) > 2) by decide, ne_eq, not_true_eq_false, false_and, if_false, if_true, pure_bind] at h
+  split at h
+  · simp [throw, throwThe, MonadExcept.throw, bind, Except.bind] at h
+  · split at h
+    · simp [throw, throwThe, MonadExcept.throw, bind, Except.bind] at h
+    · split at h
+      · rename_i rounding hro
+        unfold gather at h
+        cases hg : gatherList m b.ifm with
+        | error e => rw [hg] at h; simp [bind, Except.bind] at h
+        | ok l =>
+          rw [hg] at h
+          simp only [bind, Except.bind, pure, Except.pure] at h
+          cases hc : convBranch m ctx b (some w) rounding l.toArray b.ifm.height b.ifm.width with
+          | error e => rw [hc] at h; simp at h
+          | ok out =>
+            rw [hc] at h
+            exact ⟨rounding, l, out, hro, rfl, hc, h⟩
+      · simp [throw, throwThe, MonadExcept.throw] at h
+
+/-- the depthwise block, end to end (see `exec_conv_block_correct`) -/
+theorem exec_dw_block_correct (m m' : Mem) (ctx : Ctx) (b : BlockOp) (regs : RegFile) (w : Weights) (s : Nat)
+    (hk : b.kind = .depthwise) (hu : b.upscale = 0) (h : execBlock m ctx b regs (some w) = .ok m')
+    (hslot : regionSlot b.ofm.region = some s) (hsz : s < m.regions.size)
+    (oy ox oc : Nat) (hy : oy < b.ofm.height) (hx : ox < b.ofm.width) (hc : oc < b.ofm.depth)
+    (hdisj : ∀ y' x' c', y' < b.ofm.height → x' < b.ofm.width → c' < b.ofm.depth → (y', x', c') ≠ (oy, ox, oc) →
+      fmAddr b.ofm oy ox oc + b.ofm.elemBytes ≤ fmAddr b.ofm y' x' c' ∨ fmAddr b.ofm y' x' c' + b.ofm.elemBytes ≤ fmAddr b.ofm oy ox oc) :
+    ∃ (rounding : Rounding) (recs : List ScaleRec) (v : Int),
+      Rounding.ofBits (b.ofmPrecision / 16384 % 4) = some rounding ∧
+      (List.range b.ofm.depth).mapM (fun c => readScaleRec m b.scales ctx.ncores c) = .ok recs ∧
+      applyActivation m ctx b (clamp (npuScale rounding
+          (NpuSem.dwAcc b.ifm.height b.ifm.width (fun y x => memFm m b.ifm y x oc)
+            ((b.kernelH - 1) / b.dilationY + 1) ((b.kernelW - 1) / b.dilationX + 1) (fun ky kx => w.at oc ky kx 0)
+            b.strideY b.strideX b.dilationY b.dilationX b.padTop b.padLeft b.ifm.zeroPoint oy ox + (recs.toArray.getD oc default).bias)
+          (recs.toArray.getD oc default).scale (recs.toArray.getD oc default).shift + b.ofm.zeroPoint) b.actMin b.actMax) = .ok v ∧
+      m'.readElem b.ofm.region (fmAddr b.ofm oy ox oc) b.ofm.elemBytes b.ofm.signed = .ok (wrapElem b.ofm.elemBytes b.ofm.signed v) := by
+  obtain ⟨rounding, l, out, hro, hg, hcb, hsc⟩ := exec_dw_block m m' ctx b regs w hk hu h
+  obtain ⟨recs, hrecs, _, hdep, hvals⟩ := convBranch_dw_ok m ctx b w rounding l.toArray b.ifm.height b.ifm.width out hk hcb
+  obtain ⟨v, hv1, hv2⟩ := hvals oy ox oc hy hx hc
+  refine ⟨rounding, recs, v, hro, hrecs, ?_, ?_⟩
+  · rw [← dwAcc_congr_inrange b.ifm.height b.ifm.width _ (fun y x => memFm m b.ifm y x oc)
+      (fun y x h1 h2 => gather_getD m b.ifm l hg y x oc h1 h2 (by omega))]
+    exact hv2
+  · have := scatter_readback m m' b.ofm out.toArray s hslot hsz hsc oy ox oc hy hx hc hdisj
+    rw [this]
+    simp [Array.getD_eq_getD_getElem?, hv1]
+
+/-! ### … and for pooling blocks -/
+
+/-- the pooling branch of `execBlock`, inverted -/
+theorem poolBranch_ok (m : Mem) (ctx : Ctx) (b : BlockOp) (rounding : Rounding) (gs : Bool) (ifm : Array Int) (H W : Nat)
+    (out : List Int) (h : poolBranch m ctx b rounding gs ifm H W = .ok out) :
+    ∃ scale shift : Nat,
+      (gs = true → ∃ s, b.ofmScale = some s ∧ scale = lo32 s ∧ shift = hi6 s) ∧ (gs = false → scale = 1 ∧ shift = 0) ∧
+      b.subOp ≤ 1 ∧ b.dilationX = 1 ∧ b.dilationY = 1 ∧
+      ∀ oy ox oc, oy < b.ofm.height → ox < b.ofm.width → oc < b.ofm.depth →
+        ∃ pv v, out[(oy * b.ofm.width + ox) * b.ofm.depth + oc]? = some v ∧
+          poolValue b rounding gs scale shift
+            (windowVals H W (fun y x => ifm.getD ((y * W + x) * b.ifm.depth + oc) 0) b.kernelH b.kernelW b.strideY b.strideX b.padTop b.padLeft oy ox) = .ok pv ∧
+          applyActivation m ctx b (clamp pv b.actMin b.actMax) = .ok v := by
+  unfold poolBranch at h
+  simp only [] at h
+  split at h
+  · simp [throw, throwThe, MonadExcept.throw, bind, Except.bind] at h
+  · rename_i hsub
+    split at h
+    · simp [throw, throwThe, MonadExcept.throw, bind, Except.bind] at h
+    · rename_i hdil
+      -- the scale selection
+      have key : ∀ (sc sh : Nat),
+          ((coords3 b.ofm.height b.ofm.width b.ofm.depth).mapM fun (e : Nat × Nat × Nat) => do
+            let v ← poolValue b rounding gs sc sh
+              (windowVals H W (fun y x => ifm.getD ((y * W + x) * b.ifm.depth + e.2.2) 0) b.kernelH b.kernelW b.strideY b.strideX b.padTop b.padLeft e.1 e.2.1)
+            applyActivation m ctx b (clamp v b.actMin b.actMax)) = .ok out →
+          ∀ oy ox oc, oy < b.ofm.height → ox < b.ofm.width → oc < b.ofm.depth →
+            ∃ pv v, out[(oy * b.ofm.width + ox) * b.ofm.depth + oc]? = some v ∧
+              poolValue b rounding gs sc sh
+                (windowVals H W (fun y x => ifm.getD ((y * W + x) * b.ifm.depth + oc) 0) b.kernelH b.kernelW b.strideY b.strideX b.padTop b.padLeft oy ox) = .ok pv ∧
+              applyActivation m ctx b (clamp pv b.actMin b.actMax) = .ok v := by
+        intro sc sh hm oy ox oc hy hx hc
+        have ⟨_, hg⟩ := mapM_except_get _ _ out hm
+        obtain ⟨v, hv1, hv2⟩ := hg _ (oy, ox, oc) (coords3_get _ _ _ oy ox oc hy hx hc)
+        simp only [] at hv2
+        cases hp : poolValue b rounding gs sc sh
+            (windowVals H W (fun y x => ifm.getD ((y * W + x) * b.ifm.depth + oc) 0) b.kernelH b.kernelW b.strideY b.strideX b.padTop b.padLeft oy ox) with
+        | error e => rw [hp] at hv2; simp [bind, Except.bind] at hv2
+        | ok pv =>
+          rw [hp] at hv2
+          simp only [bind, Except.bind] at hv2
+          exact ⟨pv, v, hv1, rfl, hv2⟩
+      have hd : b.dilationX = 1 ∧ b.dilationY = 1 := by
+        constructor
+        · by_cases h1 : b.dilationX = 1
+          · exact h1
+          · exact absurd (Or.inl h1) hdil
+        · by_cases h1 : b.dilationY = 1
+          · exact h1
+          · exact absurd (Or.inr h1) hdil
+      cases gs with
+      | true =>
+        simp only [if_true] at h
+        cases hs : b.ofmScale with
+        | none => rw [hs] at h; simp [throw, throwThe, MonadExcept.throw, bind, Except.bind] at h
+        | some s =>
+          rw [hs] at h
+          simp only [bind, Except.bind, pure, Except.pure] at h
+          refine ⟨lo32 s, hi6 s, ?_, ?_, ?_, hd.1, hd.2, key _ _ h⟩
+          · intro _; exact ⟨s, rfl, rfl, rfl⟩
+          · intro c; cases c
+          · omega
+      | false =>
+        simp only [Bool.false_eq_true, if_false, bind, Except.bind, pure, Except.pure] at h
+        refine ⟨1, 0, ?_, ?_, ?_, hd.1, hd.2, key _ _ h⟩
+        · intro c; cases c
+        · intro _; exact ⟨rfl, rfl⟩
+        · omega
+
+
+/-- `execBlock` on a pooling block without upscaling: rounding mode, gather, pooling branch, scatter -/
+theorem exec_pool_block (m m' : Mem) (ctx : Ctx) (b : BlockOp) (regs : RegFile) (w : Option Weights)
+    (hk : b.kind = .pool) (hu : b.upscale = 0) (h : execBlock m ctx b regs w = .ok m') :
+    ∃ rounding l out, Rounding.ofBits (b.ofmPrecision / 16384 % 4) = some rounding ∧ gatherList m b.ifm = .ok l ∧
+      poolBranch m ctx b rounding (decide (b.ofmPrecision / 256 % 2 = 1)) l.toArray b.ifm.height b.ifm.width = .ok out ∧
+      scatter m b.ofm out.toArray = .ok m' := by
+  unfold execBlock at h
+  simp only [hk, hu, show ¬ ((0 : Nat) > 2) by decide, ne_eq, not_true_eq_false, false_and, if_false, if_true, pure_bind] at h
+  split at h
+  · simp [throw, throwThe, MonadExcept.throw, bind, Except.bind] at h
+  · split at h
+    · simp [throw, throwThe, MonadExcept.throw, bind, Except.bind] at h
+    · split at h
+      · rename_i rounding hro
+        unfold gather at h
+        cases hg : gatherList m b.ifm with
+        | error e => rw [hg] at h; simp [bind, Except.bind] at h
+        | ok l =>
+          rw [hg] at h
+          simp only [bind, Except.bind, pure, Except.pure] at h
+          cases hc : poolBranch m ctx b rounding (decide (b.ofmPrecision / 256 % 2 = 1)) l.toArray b.ifm.height b.ifm.width with
+          | error e => rw [hc] at h; simp at h
+          | ok out =>
+            rw [hc] at h
+            exact ⟨rounding, l, out, hro, rfl, hc, h⟩
+      · simp [throw, throwThe, MonadExcept.throw] at h
+
+/-- **A pooling block, end to end**: after a successful `execBlock` every OFM element (sharing no byte with another) holds the
+    activation of the clamped pooling value (`poolValue`: maximum of the valid window elements minus IFM plus OFM zero point, or
+    the scaled / divided sum) of the window over the memory contents at the IFM addresses, channel `oc`. With
+    `pool_stripe_max_eq` / `pool_stripe_avg_eq` the window is the reference's window of the whole tensor. -/
+theorem exec_pool_block_correct (m m' : Mem) (ctx : Ctx) (b : BlockOp) (regs : RegFile) (w : Option Weights) (s : Nat)
+    (hk : b.kind = .pool) (hu : b.upscale = 0) (h : execBlock m ctx b regs w = .ok m')
+    (hslot : regionSlot b.ofm.region = some s) (hsz : s < m.regions.size)
+    (oy ox oc : Nat) (hy : oy < b.ofm.height) (hx : ox < b.ofm.width) (hc : oc < b.ofm.depth) (hci : oc < b.ifm.depth)
+    (hdisj : ∀ y' x' c', y' < b.ofm.height → x' < b.ofm.width → c' < b.ofm.depth → (y', x', c') ≠ (oy, ox, oc) →
+      fmAddr b.ofm oy ox oc + b.ofm.elemBytes ≤ fmAddr b.ofm y' x' c' ∨ fmAddr b.ofm y' x' c' + b.ofm.elemBytes ≤ fmAddr b.ofm oy ox oc) :
+    ∃ (rounding : Rounding) (scale shift : Nat) (pv v : Int),
+      Rounding.ofBits (b.ofmPrecision / 16384 % 4) = some rounding ∧
+      poolValue b rounding (decide (b.ofmPrecision / 256 % 2 = 1)) scale shift
+        (windowVals b.ifm.height b.ifm.width (fun y x => memFm m b.ifm y x oc) b.kernelH b.kernelW b.strideY b.strideX b.padTop b.padLeft oy ox) = .ok pv ∧
+      applyActivation m ctx b (clamp pv b.actMin b.actMax) = .ok v ∧
+      m'.readElem b.ofm.region (fmAddr b.ofm oy ox oc) b.ofm.elemBytes b.ofm.signed = .ok (wrapElem b.ofm.elemBytes b.ofm.signed v) := by
+  obtain ⟨rounding, l, out, hro, hg, hpb, hsc⟩ := exec_pool_block m m' ctx b regs w hk hu h
+  obtain ⟨scale, shift, _, _, _, _, _, hvals⟩ := poolBranch_ok m ctx b rounding _ l.toArray b.ifm.height b.ifm.width out hpb
+  obtain ⟨pv, v, hv1, hv2, hv3⟩ := hvals oy ox oc hy hx hc
+  refine ⟨rounding, scale, shift, pv, v, hro, ?_, hv3, ?_⟩
+  · rw [← windowVals_congr_inrange b.ifm.height b.ifm.width _ (fun y x => memFm m b.ifm y x oc)
+      (fun y x h1 h2 => gather_getD m b.ifm l hg y x oc h1 h2 hci)]
+    exact hv2
+  · have := scatter_readback m m' b.ofm out.toArray s hslot hsz hsc oy ox oc hy hx hc hdisj
+    rw [this]
+    simp [Array.getD_eq_getD_getElem?, hv1]
+
+/-! ### … and for elementwise blocks -/
+
+
+/-- the elementwise branch of `execBlock`, inverted -/
+theorem ewBranch_ok (m : Mem) (ctx : Ctx) (b : BlockOp) (regs : RegFile) (rounding : Rounding) (gs : Bool) (ifm : Array Int) (W : Nat)
+    (out : List Int) (h : ewBranch m ctx b regs rounding gs ifm W = .ok out) :
+    ∃ op2, ewOperand2 m b regs = .ok op2 ∧ b.subOp ≤ 6 ∧
+      ∀ oy ox oc, oy < b.ofm.height → ox < b.ofm.width → oc < b.ofm.depth →
+        ∃ pv v, out[(oy * b.ofm.width + ox) * b.ofm.depth + oc]? = some v ∧
+          (let x1 := ifm.getD ((oy * W + ox) * b.ifm.depth + oc) 0 - b.ifm.zeroPoint
+           let x2 := ewX2 b op2 (s16 (regs.get0D IFM2_ZERO_POINT 0)) oy ox oc
+           (if b.ifm2Broadcast / 64 % 2 = 1 then ewValue b rounding gs x2 x1 else ewValue b rounding gs x1 x2) = .ok pv) ∧
+          applyActivation m ctx b (clamp pv b.actMin b.actMax) = .ok v := by
+  unfold ewBranch at h
+  simp only [] at h
+  split at h
+  · simp [throw, throwThe, MonadExcept.throw, bind, Except.bind] at h
+  · rename_i hmode
+    cases ho : ewOperand2 m b regs with
+    | error e => rw [ho] at h; simp [bind, Except.bind] at h
+    | ok op2 =>
+      rw [ho] at h
+      simp only [bind, Except.bind] at h
+      refine ⟨op2, rfl, by omega, ?_⟩
+      intro oy ox oc hy hx hc
+      have ⟨_, hg⟩ := mapM_except_get _ _ out h
+      obtain ⟨v, hv1, hv2⟩ := hg _ (oy, ox, oc) (coords3_get _ _ _ oy ox oc hy hx hc)
+      simp only [] at hv2
+      by_cases hrv : b.ifm2Broadcast / 64 % 2 = 1
+      · simp only [hrv, if_true] at hv2 ⊢
+        cases hp : ewValue b rounding gs (ewX2 b op2 (s16 (regs.get0D IFM2_ZERO_POINT 0)) oy ox oc) (ifm.getD ((oy * W + ox) * b.ifm.depth + oc) 0 - b.ifm.zeroPoint) with
+        | error e => rw [hp] at hv2; simp at hv2
+        | ok pv =>
+          rw [hp] at hv2
+          simp only [] at hv2
+          exact ⟨pv, v, hv1, rfl, hv2⟩
+      · simp only [hrv, if_false] at hv2 ⊢
+        cases hp : ewValue b rounding gs (ifm.getD ((oy * W + ox) * b.ifm.depth + oc) 0 - b.ifm.zeroPoint) (ewX2 b op2 (s16 (regs.get0D IFM2_ZERO_POINT 0)) oy ox oc) with
+        | error e => rw [hp] at hv2; simp at hv2
+        | ok pv =>
+          rw [hp] at hv2
+          simp only [] at hv2
+          exact ⟨pv, v, hv1, rfl, hv2⟩
+
+/-- `execBlock` on an elementwise block: rounding mode, gather, elementwise branch, scatter -/
+theorem exec_ew_block (m m' : Mem) (ctx : Ctx) (b : BlockOp) (regs : RegFile) (w : Option Weights)
+    (hk : b.kind = .elementwise) (hu : b.upscale = 0) (h : execBlock m ctx b regs w = .ok m') :
+    ∃ rounding l out, Rounding.ofBits (b.ofmPrecision / 16384 % 4) = some rounding ∧ gatherList m b.ifm = .ok l ∧
+      ewBranch m ctx b regs rounding (decide (b.ofmPrecision / 256 % 2 = 1)) l.toArray b.ifm.width = .ok out ∧
+      scatter m b.ofm out.toArray = .ok m' := by
+  unfold execBlock at h
+  simp only [hk, hu, show ¬ ((0 : Nat) > 2) by decide, ne_eq, not_true_eq_false, false_and, if_false, if_true, pure_bind] at h
+  split at h
+  · simp [throw, throwThe, MonadExcept.throw, bind, Except.bind] at h
+  · split at h
+    · simp [throw, throwThe, MonadExcept.throw, bind, Except.bind] at h
+    · split at h
+      · rename_i rounding hro
+        unfold gather at h
+        cases hg : gatherList m b.ifm with
+        | error e => rw [hg] at h; simp [bind, Except.bind] at h
+        | ok l =>
+          rw [hg] at h
+          simp only [bind, Except.bind, pure, Except.pure] at h
+          cases hc : ewBranch m ctx b regs rounding (decide (b.ofmPrecision / 256 % 2 = 1)) l.toArray b.ifm.width with
+          | error e => rw [hc] at h; simp at h
+          | ok out =>
+            rw [hc] at h
+            exact ⟨rounding, l, out, hro, rfl, hc, h⟩
+      · simp [throw, throwThe, MonadExcept.throw] at h
+
+
+/-- **An elementwise block, end to end**: after a successful `execBlock` every OFM element (sharing no byte with another) holds
+    the activation of the clamped `ewValue` (MUL / ADD / SUB / MIN / MAX / LRELU / ABS with the OFM / OPA / OPB scales of the
+    registers) of the first operand read from memory at the IFM address of that element and the second operand `ewX2`
+    (`ewOperand2_tensor`: also read from memory when it is a tensor), zero points removed, operands swapped when the
+    registers say so. `npu_add_eq_ref` relates the ADD / SUB value to the reference. -/
+theorem exec_ew_block_correct (m m' : Mem) (ctx : Ctx) (b : BlockOp) (regs : RegFile) (w : Option Weights) (s : Nat)
+    (hk : b.kind = .elementwise) (hu : b.upscale = 0) (h : execBlock m ctx b regs w = .ok m')
+    (hslot : regionSlot b.ofm.region = some s) (hsz : s < m.regions.size)
+    (oy ox oc : Nat) (hy : oy < b.ofm.height) (hx : ox < b.ofm.width) (hc : oc < b.ofm.depth)
+    (hyi : oy < b.ifm.height) (hxi : ox < b.ifm.width) (hci : oc < b.ifm.depth)
+    (hdisj : ∀ y' x' c', y' < b.ofm.height → x' < b.ofm.width → c' < b.ofm.depth → (y', x', c') ≠ (oy, ox, oc) →
+      fmAddr b.ofm oy ox oc + b.ofm.elemBytes ≤ fmAddr b.ofm y' x' c' ∨ fmAddr b.ofm y' x' c' + b.ofm.elemBytes ≤ fmAddr b.ofm oy ox oc) :
+    ∃ (rounding : Rounding) (op2 : Array Int × Nat × Nat × Nat) (pv v : Int),
+      Rounding.ofBits (b.ofmPrecision / 16384 % 4) = some rounding ∧ ewOperand2 m b regs = .ok op2 ∧
+      (let x1 := memFm m b.ifm oy ox oc - b.ifm.zeroPoint
+       let x2 := ewX2 b op2 (s16 (regs.get0D IFM2_ZERO_POINT 0)) oy ox oc
+       (if b.ifm2Broadcast / 64 % 2 = 1 then ewValue b rounding (decide (b.ofmPrecision / 256 % 2 = 1)) x2 x1
+        else ewValue b rounding (decide (b.ofmPrecision / 256 % 2 = 1)) x1 x2) = .ok pv) ∧
+      applyActivation m ctx b (clamp pv b.actMin b.actMax) = .ok v ∧
+      m'.readElem b.ofm.region (fmAddr b.ofm oy ox oc) b.ofm.elemBytes b.ofm.signed = .ok (wrapElem b.ofm.elemBytes b.ofm.signed v) := by
+  obtain ⟨rounding, l, out, hro, hg, heb, hsc⟩ := exec_ew_block m m' ctx b regs w hk hu h
+  obtain ⟨op2, hop, _, hvals⟩ := ewBranch_ok m ctx b regs rounding _ l.toArray b.ifm.width out heb
+  obtain ⟨pv, v, hv1, hv2, hv3⟩ := hvals oy ox oc hy hx hc
+  refine ⟨rounding, op2, pv, v, hro, hop, ?_, hv3, ?_⟩
+  · rw [← gather_getD m b.ifm l hg oy ox oc hyi hxi hci]
+    exact hv2
+  · have := scatter_readback m m' b.ofm out.toArray s hslot hsz hsc oy ox oc hy hx hc hdisj
+    rw [this]
+    simp [Array.getD_eq_getD_getElem?, hv1]
+
+/-- the second operand, when it is a tensor: the gathered box of its feature-map registers, so that `ewX2` reads the memory
+    contents at the IFM2 addresses (with broadcasting over the dimensions of extent 1) -/
+theorem ewOperand2_tensor (m : Mem) (b : BlockOp) (regs : RegFile) (fm : FM) (op2 : Array Int × Nat × Nat × Nat)
+    (hfm : b.ifm2 = some fm) (h : ewOperand2 m b regs = .ok op2) :
+    op2.2 = (fm.height, fm.width, fm.depth) ∧
+    ∀ y x c, y < fm.height → x < fm.width → c < fm.depth → op2.1.getD ((y * fm.width + x) * fm.depth + c) 0 = memFm m fm y x c := by
+  unfold ewOperand2 at h
+  rw [hfm] at h
+  simp only [] at h
+  unfold gather at h
+  cases hg : gatherList m fm with
+  | error e => rw [hg] at h; simp [bind, Except.bind] at h
+  | ok l =>
+    rw [hg] at h
+    simp only [bind, Except.bind, pure, Except.pure] at h
+    cases h
+    exact ⟨rfl, fun y x c hy hx hc => gather_getD m fm l hg y x c hy hx hc⟩
+
+/-- non-vacuity: the block of `Lemmas/Exec.lean` (1x2x1 int8 IFM [5, -6], 1x1 kernel of weight 3, bias 1, unit scale) executes
+    and leaves [16, -17] in the OFM bytes -/
+example : (match execBlock exMem ⟨1, 0⟩ exBlock default (some exW) with
+    | .ok m' => (m'.regions.getD 1 ByteArray.empty).data.toList.map (·.toNat) | .error _ => []) = [5, 250, 0, 0, 16, 239, 0, 0] := by
+  decide +kernel
+
+
+/-- **From the executor's value to the reference kernel's value.** The value `exec_conv_block_correct` puts into the OFM (before
+    the activation function, TFL rounding) for a stripe is the value `TfliteRef.conv2d` computes for that output element of the
+    whole tensor — `clamp (MultiplyByQuantizedMultiplier (acc + bias) mult shift' + output zero point)` — when the C10 stripe equations
+    hold and the scale record carries the reference multiplier with `shift' = 31 - shift`. -/
+theorem conv_value_eq_reference (H W C h a oy0 pt pt' pl kh kw sy sx dy dx : Nat)
+    (ifm : Nat → Nat → Nat → Int) (wgt : Nat → Nat → Nat → Int) (zp bias scale ozp lo hi : Int) (shift : Nat) (oy ox : Nat)
+    (hs : 0 ≤ scale)
+    (hfield : (a : Int) - pt' = (oy0 : Int) * sy - pt)
+    (hrow : ∀ ky, ky < kh →
+      ((pt' ≤ oy * sy + ky * dy ∧ oy * sy + ky * dy - pt' < h) ↔
+       (0 ≤ (((oy0 + oy) * sy + ky * dy : Nat) : Int) - pt ∧ (((oy0 + oy) * sy + ky * dy : Nat) : Int) - pt < H))) :
+    clamp (npuScale .tfl (NpuSem.convAcc h W C (fun y x c => ifm (a + y) x c) kh kw wgt sy sx dy dx pt' pl zp oy ox + bias) scale shift + ozp) lo hi =
+    clamp (requant false (TfliteRef.convAcc H W C ifm kh kw wgt sy sx dy dx pt pl (-zp) (oy0 + oy) ox + bias) scale (31 - (shift : Int)) + ozp) lo hi := by
+  rw [conv_stripe_eq H W C h a oy0 pt pt' pl kh kw sy sx dy dx ifm wgt zp oy ox hfield hrow]
+  simp only [npuScale, requant]
+  rw [npuScaleTfl_eq_mbqm _ scale shift hs]
+  rfl
+
+example : clamp (npuScale .tfl (NpuSem.convAcc 4 4 2 (fun y x c => ((((2 + y) * 7 + x * 3 + c : Nat)) : Int)) 3 3 (fun ky kx c => (ky : Int) - kx + c) 1 1 1 1 0 1 5 1 2 + 9) 1518500250 35 + 3) (-128) 127 =
+    clamp (requant false (TfliteRef.convAcc 6 4 2 (fun y x c => (((y * 7 + x * 3 + c : Nat)) : Int)) 3 3 (fun ky kx c => (ky : Int) - kx + c) 1 1 1 1 1 1 (-5) (3 + 1) 2 + 9) 1518500250 (31 - 35) + 3) (-128) 127 := by
   decide
 
 end VelaVerif.Props.C01
